@@ -181,7 +181,7 @@ def render(program, simlib_text=None):
 
 
 class SiteCall:
-    __slots__ = ("node", "arg_text", "arg_node", "span", "call_span", "lineno")
+    __slots__ = ("node", "arg_text", "arg_node", "span", "call_span", "lineno", "region_text")
 
     def __repr__(self):
         return f"<site line {self.lineno} arg={self.arg_text!r}>"
@@ -224,6 +224,7 @@ def find_sites(text):
         func_end = off(n.func.end_lineno, n.func.end_col_offset)
         open_paren = data.index(b"(", func_end)
         sc.span = (open_paren + 1, sc.call_span[1] - 1)
+        sc.region_text = data[sc.span[0]: sc.span[1]].decode("utf-8").strip()
         if n.args:
             a = n.args[0]
             sc.arg_node = a
